@@ -6,7 +6,13 @@ from typing import Any, Callable, NamedTuple
 
 from ...code_tools.cascade_namespace import BuiltinCascadeNamespace, CascadeNamespace
 from ...code_tools.code_builder import CodeBuilder
-from ...code_tools.utils import get_literal_expr, get_literal_from_factory, is_singleton
+from ...code_tools.utils import (
+    get_literal_expr,
+    get_literal_from_factory,
+    get_var_suffix,
+    is_plain_identifier,
+    is_singleton,
+)
 from ...common import Dumper
 from ...compat import CompatExceptionGroup
 from ...definitions import DebugTrail
@@ -175,27 +181,27 @@ class BuiltinModelDumperGen(ModelDumperGen):
         return field.id in self._extra_targets
 
     def _v_field(self, field: OutputField) -> str:
-        return f"f_{field.id}"
+        return f"f_{get_var_suffix(field.id)}"
 
     def _v_dumper(self, field: OutputField) -> str:
-        return f"dumper_{field.id}"
+        return f"dumper_{get_var_suffix(field.id)}"
 
     def _v_raw_field(self, field: OutputField) -> str:
-        return f"r_{field.id}"
+        return f"r_{get_var_suffix(field.id)}"
 
     def _v_accessor_getter(self, field: OutputField) -> str:
-        return f"accessor_getter_{field.id}"
+        return f"accessor_getter_{get_var_suffix(field.id)}"
 
     def _v_trail_element(self, field: OutputField) -> str:
-        return f"trail_element_{field.id}"
+        return f"trail_element_{get_var_suffix(field.id)}"
 
     def _v_access_error(self, field: OutputField) -> str:
-        return f"access_error_{field.id}"
+        return f"access_error_{get_var_suffix(field.id)}"
 
     def _gen_access_expr(self, namespace: CascadeNamespace, field: OutputField) -> str:
         accessor = field.accessor
         if isinstance(accessor, DescriptorAccessor):
-            if accessor.attr_name.isidentifier():
+            if is_plain_identifier(accessor.attr_name):
                 return f"data.{accessor.attr_name}"
             return f"getattr(data, {accessor.attr_name!r})"
         if isinstance(accessor, ItemAccessor):
